@@ -24,7 +24,7 @@ import (
 
 type stats struct {
 	sync.Mutex
-	hist, blocks, reorgs, queries, txs, received, rel, no, err, minedPending, minedConflict, chains, orphans, dups, simul, sel, wd, restarts int
+	hist, blocks, reorgs, queries, txs, received, rel, no, err, minedPending, minedConflict, chains, orphans, dups, simul, sel, wd, restarts, directed int
 }
 
 var st stats
@@ -118,8 +118,31 @@ func runOne(seed uint64, n int, c cfg) ([]byte, error) {
 		announce(b)
 		return nil
 	}
+	// directed shapes of reported findings (only with -probes): played as soon as the chain offers the coins
+	todo := map[string]bool{}
+	for p := range c.probes {
+		if p != "cbgames" {
+			todo[p] = true
+		}
+	}
 	steps := 10 + r.Intn(30)
-	for s := 0; s < steps; s++ {
+	for s := 0; s < steps || (len(todo) > 0 && s < 80); s++ {
+		if len(todo) > 0 && len(queue) == 0 && h.N.Height() >= 6 {
+			for _, p := range []string{"simul", "mined", "foreign"} {
+				if todo[p] {
+					done, err := h.Scenario(p)
+					if err != nil {
+						return nil, err
+					}
+					if done {
+						delete(todo, p)
+						st.Lock()
+						st.directed++
+						st.Unlock()
+					}
+				}
+			}
+		}
 		switch k := r.Intn(100); {
 		case k < 34:
 			if err := block(2); err != nil {
@@ -332,6 +355,6 @@ func main() {
 		w.Write(res)
 	}
 	w.Flush()
-	fmt.Fprintf(os.Stderr, "STATS histories=%d blocks=%d txs=%d reorgs=%d queries=%d received=%d rel=%d no=%d err=%d mined_pending=%d mined_conflict_blocks=%d chains=%d orphans=%d duplicates=%d simultaneous_conflicts=%d restarts=%d\n",
-		st.hist, st.blocks, st.txs, st.reorgs, st.queries, st.received, st.rel, st.no, st.err, st.minedPending, st.minedConflict, st.chains, st.orphans, st.dups, st.simul, st.restarts)
+	fmt.Fprintf(os.Stderr, "STATS histories=%d blocks=%d txs=%d reorgs=%d queries=%d received=%d rel=%d no=%d err=%d mined_pending=%d mined_conflict_blocks=%d chains=%d orphans=%d duplicates=%d simultaneous_conflicts=%d restarts=%d directed_shapes=%d\n",
+		st.hist, st.blocks, st.txs, st.reorgs, st.queries, st.received, st.rel, st.no, st.err, st.minedPending, st.minedConflict, st.chains, st.orphans, st.dups, st.simul, st.restarts, st.directed)
 }
